@@ -46,7 +46,7 @@ type Solver struct {
 // NewSolver starts `z3 -in` (or another binary given by argv).
 func NewSolver(timeoutMs int, argv ...string) (*Solver, error) {
 	if len(argv) == 0 {
-		argv = []string{"z3", "-in"}
+		argv = defaultSolver()
 	}
 	s := &Solver{Name: argv[0], TimeoutMs: timeoutMs, argv: argv}
 	s.Em = NewEmitter(s.send)
@@ -362,4 +362,13 @@ func tokenize(s string) []string {
 		}
 	}
 	return toks
+}
+
+// defaultSolver prefers the newer z3 (z3-new, 5.x) when it is installed: it is
+// far more robust on the string-equality and UF heavy queries of this engine.
+func defaultSolver() []string {
+	if p, err := exec.LookPath("z3-new"); err == nil {
+		return []string{p, "-in"}
+	}
+	return []string{"z3", "-in"}
 }
